@@ -191,13 +191,47 @@ def gen_case(seed, tier, idx):
         while len(stim) < T:
             stim.append([[rnd.randrange(2) for _ in range(K)], 0, 0])
         stim = stim[:T]
-    return {"engine": "event", "kind": ["random", "sticky", "coincide", "api"][kind],
+    case = {"engine": "event", "kind": ["random", "sticky", "coincide", "api"][kind],
             "cfg": {"modes": modes, "montrig": rnd.randrange(3)},
             "ops1": ops1, "ops2": ops2, "stim": stim}
+    if len(stim) > 20 and rnd.random() < 0.3:
+        # mid-run synchronous resets: "initially low" / "nothing pending" must hold again after each of them
+        case["resets"] = sorted(rnd.sample(range(3, len(stim) - 3), rnd.choice([1, 1, 2, 3])))
+        for r in case["resets"]:
+            if rnd.random() < 0.7:           # lines held high through the reset: the interesting case for edges
+                stim[r][0] = [1] * K
+                stim[r + 1][0] = [rnd.choice([0, 1, 1]) for _ in range(K)]
+    return case
 
 
 def to_model(case):
     return [case["cfg"]["modes"], case["cfg"]["montrig"], case["ops1"], case["ops2"], case["stim"]]
+
+
+def _segments(case):
+    """[(first, last)] cycle ranges; a segment ends with the cycle in which the reset is asserted"""
+    rs = sorted(set(r for r in case.get("resets", []) if 0 <= r < len(case["stim"]) - 1))
+    out, a = [], 0
+    for r in rs:
+        out.append((a, r)); a = r + 1
+    out.append((a, len(case["stim"]) - 1))
+    return out
+
+
+def model_cases(case):
+    """A mid-run synchronous reset starts the model again from its initial state: one model run per segment."""
+    if not case["stim"]:
+        return [to_model(case)]
+    return [[case["cfg"]["modes"], case["cfg"]["montrig"], case["ops1"], case["ops2"], case["stim"][a:b + 1]]
+            for (a, b) in _segments(case)]
+
+
+def model_join(case, results):
+    res1, res2, rows, widths = results[0]
+    rows = list(rows)
+    for r in results[1:]:
+        rows += r[2]
+    return [res1, res2, rows, widths]
 
 
 # ------------------------------------------------------------------------------------------------
@@ -264,7 +298,7 @@ def run_impl(case):
     outs = [objs[j].trg for j in watch] + [mon.pending, mon.src.i]
     stim = [[iv[j] for j in watch] + [en, cl] for (iv, en, cl) in case["stim"]]
     try:
-        rows = S.simulate(mon, ins, outs, stim)
+        rows = S.simulate(mon, ins, outs, stim, reset_at=[b for (a, b) in _segments(case)[:-1]] if case["stim"] else ())
     except Exception:
         return [res1, res2, [], [-1, -1, -1]]
     obs = []
@@ -351,10 +385,11 @@ def oracle(case, obs):
         out.append(("C13", "widths", f"enable/pending/clear are {widths} bits wide for {n} sources"))
     modes = case["cfg"]["modes"]
     prev = {j: 0 for j, _ in srcs}
+    resets = set(b for (a, b) in _segments(case)[:-1]) if case["stim"] else set()
     for t, ((iv, en, cl), (tr, pend, irq)) in enumerate(zip(case["stim"], rows)):
         en &= (1 << n) - 1; cl &= (1 << n) - 1
-        if t == 0 and pend != 0:
-            out.append(("C13", t, f"pending = {pend:#x} before any trigger"))
+        if (t == 0 or (t - 1) in resets) and pend != 0:
+            out.append(("C13", t, f"pending = {pend:#x} before any trigger" + (" (first cycle after a reset)" if t else "")))
         if pend >> n:
             out.append(("C13", t, f"pending = {pend:#x} has bits beyond the {n} sources"))
         if irq != int((en & pend) != 0):
@@ -369,14 +404,14 @@ def oracle(case, obs):
             got = tr[j][0]
             if got != want:
                 out.append(("C13", t, f"source {j} ({MODES[m]}, index {k}): i {prev[j]}->{iv[j]} but trg = {got}"))
-            if nxt is not None:
+            if nxt is not None and t not in resets:
                 pk = (pend >> k) & 1; ck = (cl >> k) & 1; nk = (nxt >> k) & 1
                 if got and not nk:
                     out.append(("C13", t, f"event lost: source {j} (index {k}) triggered with clear[{k}] = {ck}, "
                                           f"pending[{k}] = 0 in the next cycle"))
                 elif nk != (got | (pk & (1 - ck))):
                     out.append(("C13", t, f"pending[{k}] {pk}->{nk} with trg(source {j}) = {got}, clear[{k}] = {ck}"))
-            prev[j] = iv[j]
+            prev[j] = 0 if t in resets else iv[j]      # after a reset the previous input counts as low again
         if len(out) > 20:
             break
     return out
